@@ -69,6 +69,8 @@ pub enum Backoff {
     MultThenCap,
     /// the same with the cap set BEFORE the multiplier
     CapThenMult,
+    /// 1 ms x 1.1^k capped at 60 s: a gentle multiplier, used for one long outage (80 attempts)
+    Gentle,
 }
 
 impl Backoff {
@@ -86,6 +88,7 @@ impl Backoff {
             Backoff::Exponential => 10 * 2u64.pow(a),
             Backoff::Capped => (10 * 2u64.pow(a)).min(25),
             Backoff::MultThenCap | Backoff::CapThenMult => (10 * 3u64.pow(a)).min(1000),
+            Backoff::Gentle => ((1.1f64.powi(a as i32)).min(60_000.0) - 1e-9).ceil() as u64,
             Backoff::Fn => (a as u64 + 1) * 7,
         }
     }
@@ -150,6 +153,7 @@ pub fn build(cfg: &Cfg, shared: trv_core::inner::Shared) -> (Svc, Option<Arc<Rec
         Backoff::Seconds => b.exponential_backoff(Duration::from_millis(1250)),
         Backoff::Fractional => b.backoff(ExponentialBackoff::new(Duration::from_micros(2750)).multiplier(1.5)),
         Backoff::MultThenCap => b.backoff(ExponentialBackoff::new(Duration::from_millis(10)).multiplier(3.0).max_interval(Duration::from_secs(1))),
+        Backoff::Gentle => b.backoff(ExponentialBackoff::new(Duration::from_millis(1)).multiplier(1.1).max_interval(Duration::from_secs(60))),
         Backoff::CapThenMult => b.backoff(ExponentialBackoff::new(Duration::from_millis(10)).max_interval(Duration::from_secs(1)).multiplier(3.0)),
     };
     if cfg.predicate {
@@ -246,6 +250,8 @@ pub fn grid(tier: Tier) -> Vec<Cfg> {
             }
         }
     }
+    // one long outage: 80 attempts, every one a retryable failure, a gentle multiplier
+    v.push(Cfg { max_attempts: 80, per_request: false, backoff: Backoff::Gentle, predicate: false, budget: BudgetKind::None });
     v
 }
 
@@ -253,13 +259,15 @@ pub fn run_grid(tier: Tier, rep: &mut Report) {
     let cfgs = grid(tier);
     let mut reported = std::collections::BTreeSet::new();
     for cfg in &cfgs {
+        let long = cfg.backoff == Backoff::Gentle;
         let len = cfg.max_attempts.max(1) + 1;
-        let total = 3usize.pow(len as u32);
+        let total = if long { 1 } else { 3usize.pow(len as u32) };
         for code in 0..total {
             let mut script = vec![];
             let mut c = code;
             for _ in 0..len {
-                script.push((c % 3) as u8);
+                // (the long outage: retryable errors only)
+                script.push(if long { 1 } else { (c % 3) as u8 });
                 c /= 3;
             }
             let w = World::new(0, 10, Mode::Script, 1);
